@@ -285,7 +285,12 @@ func genC11(t *rapid.T) *Bundle {
 	}
 	c := oneClientCase("C11", sim, doc, casefmt.Op{Doc: 0, Vars: -1, Query: exp.FQ.Query, Wrapped: wrapped})
 	c.Stubs.Lat = drawLatencies(t, exp.FQ.Async, 5)
+	// a caller who fills the document from typed Go data passes []map[string]any tables
+	c.TypedTables = rapid.IntRange(0, 3).Draw(t, "typed_tables") == 0
 	tags := []string{"mode:" + mode, "shape:" + exp.FQ.Shape, fmt.Sprintf("wrapped:%v", wrapped)}
+	if c.TypedTables {
+		tags = append(tags, "typed_tables")
+	}
 	return &Bundle{Prop: "C11", Kind: mode, Case: c, Expect: mustJSON(exp), Tags: tags}
 }
 
